@@ -34,8 +34,6 @@ EXHAUSTIVE = {"quick": "all 3^4 present/absent/unreadable states of input,max,cr
                        "x {C,F} for one temperature sensor (324 layouts)",
               "thorough": "all 3^4 x 3 (name) x {C,F} single-sensor layouts x 3 value classes (zero, positive, negative), "
                           "all 3^3 single-fan layouts, all 2^6 x 3 battery file subsets"}
-# property-text reading: a present threshold whose value is 0 is not "missing" (see notes/design/C19.md)
-ZERO_THRESHOLD_IS_FINDING = True
 
 
 def gen_cases(rng, tier):
@@ -201,11 +199,10 @@ def coq_struct(case, raw):
     k = case["kind"]
     if k == "temps":
         spec = None if raw[2] is None else sort_dict_outcome(raw[2])
-        return {"printed": raw[0], "model": sort_dict_outcome(raw[1]), "spec": spec, "nozero": raw[3]}
+        return {"printed": raw[0], "model": sort_dict_outcome(raw[1]), "spec": spec}
     if k == "fans":
         spec = None if raw[2] is None else sort_dict_outcome(raw[2])
-        return {"printed": raw[0], "model": sort_dict_outcome(raw[1]), "spec": spec, "names_ok": raw[3],
-                "repaired": sort_dict_outcome(raw[4])}
+        return {"printed": raw[0], "model": sort_dict_outcome(raw[1]), "spec": spec}
     if k in ("temps_raw", "fans_raw"):
         return {"model": sort_dict_outcome(raw[0]), "spec": None}
     if k == "battery":
@@ -219,19 +216,9 @@ def coq_struct(case, raw):
 
 # ------------------------------------------------------------------ verdicts
 def finding_key(case, coq):
-    k = case["kind"]
-    if k == "fans" and coq.get("names_ok") is False:
-        return "fans-name-unreadable"
-    if k == "battery" and not case["dir"]:
-        return "battery-no-power-supply-dir"
-    if k == "temps" and coq.get("nozero") is False and ZERO_THRESHOLD_IS_FINDING:
-        return "temps-zero-threshold"
+    # no known (unrepaired) finding: the three defects this check found were repaired in /repo
+    # (3a32a00, e09e22a, 60747a2); their inputs live in corpus/C19 and are replayed first on every run
     return None
-
-
-def _spec_parts(case, coq):
-    """pairs (spec part, model part) compared independently (a None spec part = no demand)"""
-    return coq.get("spec"), coq.get("model")
 
 
 def judge(case, coq, impl):
@@ -242,8 +229,6 @@ def judge(case, coq, impl):
     if _has_oom(model):
         return Verdict("skip", "out of model")
     k = case["kind"]
-    if k == "temps" and coq.get("nozero") is False and not ZERO_THRESHOLD_IS_FINDING:
-        spec = None
     # list-valued results (cpufreq: percpu + mean; cpucount: logical + cores; stat: cpu_stats + boot_time)
     if k in ("cpufreq", "cpucount", "stat") and spec is not None:
         for s, i in zip(spec, impl):
@@ -281,13 +266,14 @@ MANIFEST = {
     "text": "Theorems (Coq 8.16, closed under the global context; coq/Properties/C19.v): for every hwmon layout (any number of chips and "
             "sensors, every subset of input/max/crit/label/name files present, absent or unreadable, non-numeric inputs/thresholds) "
             "the model of sensors_temperatures() returns a value, and under every unit name exactly the readable sensors with "
-            "current = millidegrees/1000, thresholds /1000 or None, Fahrenheit = C*9/5+32 and missing thresholds back-filled "
-            "(present-but-zero thresholds excluded: refuted theorem + known finding); thermal-zone fallback scales trip points once "
-            "for every iteration order; sensors_fans() likewise (unreadable name file excluded: refuted + finding, proved for the "
-            "proposed repair); sensors_battery() gives percent = 100*now/full or capacity, seconds = now*3600/power, UNLIMITED on "
-            "mains, UNKNOWN otherwise, None without battery, for every subset of the alternative files (missing power_supply "
-            "directory: refuted + finding); cpu_freq() per-CPU values are kHz/1000 with offline CPUs zero and the mean is the "
-            "arithmetic mean; cpu_stats()/boot_time() return the ctxt/intr/softirq/btime fields of every printed /proc/stat. "
+            "current = millidegrees/1000, thresholds /1000 or None, Fahrenheit = C*9/5+32 and missing thresholds back-filled; "
+            "thermal-zone fallback scales trip points once for every iteration order; sensors_fans() likewise (a fan whose input or "
+            "name file is missing is skipped); sensors_battery() gives percent = 100*now/full or capacity, seconds = "
+            "now*3600/power, UNLIMITED on mains, UNKNOWN otherwise, None without battery or without the power_supply directory, for "
+            "every subset of the alternative files, the battery reported being the least by name; cpu_freq() per-CPU values are "
+            "kHz/1000 with offline CPUs zero and the mean is the arithmetic mean; cpu_stats()/boot_time() return the "
+            "ctxt/intr/softirq/btime fields of every printed /proc/stat. Refuted-theorems record the three defects found and "
+            "repaired (code before 60747a2, e09e22a, 3a32a00). "
             "The hand-written model is tied to the code by executing both (vm_compute vs the real psutil over a fake /sys and "
             "/proc behind a path-rewriting shim) on generated layouts.",
     "note": "Trusted: Coq kernel + vm_compute; model coq/C19/Model.v (tied by the correspondence run only); kernel formats in "
